@@ -524,22 +524,38 @@ theorem step_call_closure (ih : Mono n m) (st env ps body cenv args) :
     callVal (m + 1) st env (.closure ps body cenv) args = callVal (n + 1) st env (.closure ps body cenv) args ∨
       (callVal (n + 1) st env (.closure ps body cenv) args).1 = .fuelOut := by
   simp only [callVal, newFrame]
-  split
-  · exact Or.inl rfl
-  · fuel_sub (ih.evList _ _ _) with r st1
-    cases r with
-    | stop r => exact Or.inl rfl
-    | ok dvs =>
+  -- the parameter annotations
+  fuel_sub (ih.evList _ _ _) with r0 st0
+  cases r0 with
+  | stop r => exact Or.inl rfl
+  | ok tvs =>
+    dsimp only
+    cases defaultsInPlay args.length ps 0 false [] with
+    | none => exact Or.inl rfl
+    | some inPlay =>
       dsimp only
-      cases bindArgs ps args dvs with
-      | none => exact Or.inl rfl
-      | some binds =>
-        dsimp only
-        cases st1.frames[st.frames.size]? with
-        | none => exact Or.inl rfl
-        | some fr =>
-          fuel_sub (ih.ev _ _ body) with r2 st2
-          exact Or.inl rfl
+      split
+      · exact Or.inl rfl
+      · -- the defaults in play
+        fuel_sub (ih.evList _ _ _) with r st1
+        cases r with
+        | stop r => exact Or.inl rfl
+        | ok dvs =>
+          dsimp only
+          cases bindArgs ps args dvs with
+          | none => exact Or.inl rfl
+          | some binds =>
+            dsimp only
+            cases st1.frames[st.frames.size]? with
+            | none => exact Or.inl rfl
+            | some fr =>
+              dsimp only
+              obtain ⟨okb, vars, tys⟩ := checkBinds (annSlots ps tvs) binds [] []
+              cases okb with
+              | false => exact Or.inl rfl
+              | true =>
+                fuel_sub (ih.ev _ _ body) with r2 st2
+                exact Or.inl rfl
 
 theorem step_call (ih : Mono n m) (st env f args) :
     callVal (m + 1) st env f args = callVal (n + 1) st env f args ∨
@@ -773,7 +789,7 @@ theorem ne_fuelOut_of {r : Res} (h : isFuelOut r = false) : r ≠ .fuelOut := by
 def sampleProg : Expr :=
   .seq [
     .declare (.ident "i") (.int 0),
-    .declare (.ident "f") (.lambda [.mk "a" none false] (.op "+" (.ident "a") (.int 1))),
+    .declare (.ident "f") (.lambda [.mk "a" none false none] (.op "+" (.ident "a") (.int 1))),
     .while_ (.op "<" (.ident "i") (.int 3)) (.assign "i" (.call (.ident "f") [.ident "i"])),
     .for_ [.iter .normal (.ident "x") (.list [.int 1, .int 2])]
       (.yield (.switch_ (.ident "x") [.mk (.lit 1) (.ident "i"), .mk (.ident "y") (.op "*" (.ident "y") (.ident "i"))])
